@@ -263,6 +263,13 @@ func (f *fstore) canon() string {
 
 // permute returns the p-th permutation (factorial number system) of xs.
 func permute(xs []string, p int) []string {
+	if p < 0 { // reversed order
+		out := make([]string, len(xs))
+		for i, x := range xs {
+			out[len(xs)-1-i] = x
+		}
+		return out
+	}
 	rest := append([]string(nil), xs...)
 	out := make([]string, 0, len(xs))
 	n := len(rest)
